@@ -16,7 +16,8 @@ import (
 // engines route / rcache / total: route tables on a real rux.Router vs the Lean table model.
 //
 //	new <mask> <cap> <intercept>   mask: 1 strict, 2 fallback, 4 notAllowed, 8 caching, 16 custom NotFound, 32 custom NotAllowed,
-//	                               64 InterceptAll is the first option instead of the last
+//	                               64 InterceptAll is the first option instead of the last, 256 / 512: NotFound() / NotAllowed() is
+//	                               called with an EMPTY handler list afterwards (= the default handlers again)
 //	reg ... <h>                    h: 0 plain handler, 1 nil handler, 2 handler that overwrites c.Params after answering
 //	reg <id> <methods|-> <path> <nil>
 //	q <method> <path>              Router.QuickMatch
@@ -199,6 +200,12 @@ var varKinds = []varKind{
 	{"%s:(?:\\d+)\\.(?:\\d+)", []string{"1.20", "0.1"}, []string{"1", "1x2", "1."}},
 	{"%s:(?:x|y)(?:1|2)", []string{"x1", "y2"}, []string{"x", "1x", "xy"}},
 	{"%s:(?:[a-z]+)(?:-\\d+)?", []string{"ab", "ab-12"}, []string{"ab-", "-1", "AB"}},
+	// a custom regex that is a plain word - the same word as the NAME of a global variable: it is a regex (it matches
+	// that word and nothing else), not a reference to the global variable
+	{"%s:num", []string{"num"}, []string{"7", "42", "nu", "numm", ""}},
+	{"%s:any", []string{"any"}, []string{"a", "x.y", "12", ""}},
+	{"%s:all", []string{"all"}, []string{"a", "a/b/c", "al", ""}},
+	{"%s:new|old", []string{"new", "old"}, []string{"ne", "newold", ""}},
 }
 
 var globalNames = []struct {
@@ -392,6 +399,12 @@ func (e routeEngine) Gen(r *Rand, tier string) Case {
 		return c
 	}
 	mask := r.Intn(128) &^ 8
+	if r.Chance(1, 6) {
+		mask |= 256
+	}
+	if r.Chance(1, 6) {
+		mask |= 512
+	}
 	cap := 0
 	icpt := ""
 	nRoutes := r.Range(1, 8)
@@ -663,6 +676,14 @@ func newRouter(mask, cap int, icpt string, caching bool) *rux.Router {
 			c.SetStatus(405)
 			c.WriteString("NA:" + strings.Join(a, ","))
 		})
+	}
+	// an EMPTY handler list (r.NotFound(cfg.Handlers...) with nothing configured, or custom handlers taken away
+	// again) means "the default handlers"
+	if mask&256 != 0 {
+		r.NotFound()
+	}
+	if mask&512 != 0 {
+		r.NotAllowed()
 	}
 	return r
 }
